@@ -57,7 +57,12 @@ def main():
             r2 = explore.run_spaces([one], max(120.0, deadline_s), slow=True, stall_s=2 * stall_s)
         finally:
             explore.NWORK = save
-        if r2["crashes"]:
+        if r2["crashes"] and r2["crashes"][0]["exit"] == -4 and variant.startswith("cpu-"):
+            # SIGILL inside a build for ANOTHER cpu: a kernel of that path needs an instruction-set extension this host lacks.
+            # The property excludes such kernels ("not executable here"); recorded, pass marked non-exhaustive, not a violation.
+            res["errors"].append("not executable on this host (SIGILL) under %s: space %s block %r case %s" % (
+                variant, sp.name, blk, r2["crashes"][0]["case"]))
+        elif r2["crashes"]:
             c2 = r2["crashes"][0]
             confirmed.append({"space": sp.name, "block": explore.crepr(blk), "case": c2["case"], "kind": "crash",
                               "msg": "worker died (%s) while executing this case; reproduced in isolation" % (c2["exit"],)})
